@@ -4,7 +4,7 @@ package otp
 
 //verif:harness prop=C03 name=window
 //verif:cases quick skew=0,1,2,10 digits=6,10 keylen=10 dlen=0 codesrc=0,1,2
-//verif:cases thorough skew=0..10 digits=1,6,8,10 keylen=20 dlen=0 codesrc=0,1,2
+//verif:cases thorough skew=0,1,2,5,10 digits=1,6,10 keylen=20 dlen=0 codesrc=0,1,2
 //verif:replace github.com/ja7ad/otp.deriveRFC4226=verifStub_derive
 //verif:replace github.com/ja7ad/otp.DecodeSecret=verifStub_DecodeSecret
 //verif:opt maxpaths=4000 unwind=1000
